@@ -19,41 +19,59 @@ import (
 	"github.com/prometheus/common/model"
 )
 
-// index contains map of fingerprints to fingerprints.
-// The keys are fingerprints of the equal labels of source alerts.
-// The values are fingerprints of the source alerts.
+// index maps the fingerprint of the equal labels of source alerts to the
+// fingerprints of all cached source alerts that have these equal labels.
 // For more info see comments on inhibitor and InhibitRule.
 type index struct {
 	mtx   sync.RWMutex
-	items map[model.Fingerprint]model.Fingerprint
+	items map[model.Fingerprint]map[model.Fingerprint]struct{}
 }
 
 func newIndex() *index {
 	return &index{
-		items: make(map[model.Fingerprint]model.Fingerprint),
+		items: make(map[model.Fingerprint]map[model.Fingerprint]struct{}),
 	}
 }
 
-func (c *index) Get(key model.Fingerprint) (model.Fingerprint, bool) {
+// Range calls f for the fingerprints indexed under key, in no particular
+// order, until f returns false.
+func (c *index) Range(key model.Fingerprint, f func(model.Fingerprint) bool) {
 	c.mtx.RLock()
 	defer c.mtx.RUnlock()
 
-	fp, ok := c.items[key]
-	return fp, ok
+	for fp := range c.items[key] {
+		if !f(fp) {
+			return
+		}
+	}
 }
 
-func (c *index) Set(key, value model.Fingerprint) {
+// Add adds value to the fingerprints indexed under key.
+func (c *index) Add(key, value model.Fingerprint) {
 	c.mtx.Lock()
 	defer c.mtx.Unlock()
 
-	c.items[key] = value
+	fps, ok := c.items[key]
+	if !ok {
+		fps = make(map[model.Fingerprint]struct{}, 1)
+		c.items[key] = fps
+	}
+	fps[value] = struct{}{}
 }
 
-func (c *index) Delete(key model.Fingerprint) {
+// Delete removes value from the fingerprints indexed under key.
+func (c *index) Delete(key, value model.Fingerprint) {
 	c.mtx.Lock()
 	defer c.mtx.Unlock()
 
-	delete(c.items, key)
+	fps, ok := c.items[key]
+	if !ok {
+		return
+	}
+	delete(fps, value)
+	if len(fps) == 0 {
+		delete(c.items, key)
+	}
 }
 
 func (c *index) Len() int {
